@@ -789,8 +789,8 @@ PROPS = {
         "assumptions": [],
     },
     "C03": {
-        "lean_module": "Keto.Props.C03",
-        "theorems": ["Keto.C03_no_allow_pos", "Keto.C03_single_error_never_allowed", "Keto.C03_invert_keeps_error",
+        "lean_module": ["Keto.Props.C03", "Keto.Proofs.FactsTie"],
+        "theorems": ["Keto.FactsTie.readCallShapes_tie", "Keto.C03_no_allow_pos", "Keto.C03_single_error_never_allowed", "Keto.C03_invert_keeps_error",
                      "Keto.C03_and_error_not_member", "Keto.C03_error_never_member", "Keto.C03_checkIsMember_true",
                      "Keto.build_err_not_member"],
         "streams": [{"name": "engine-c03", "n": {"quick": 150, "thorough": 1500}, "oracle": oracle_c03, "thorough_seeds": 3}],
